@@ -169,6 +169,9 @@ fn event_json(s: &Value, format: &str, redacted: bool, content: &Value, extras: 
             if let Some(top) = s.get("top").and_then(|t| t.as_object()) {
                 for (k, v) in top { ev[k] = v.clone(); }
             }
+            if let (Some(extra), true) = (s.get("unsigned").and_then(|t| t.as_object()), format != "stripped") {
+                for (k, v) in extra { ev["unsigned"][k] = v.clone(); }
+            }
             if redacted {
                 ev["unsigned"] = json!({"redacted_because": {"type": "m.room.redaction", "sender": "@mod:s.co", "event_id": "$red:s.co", "origin_server_ts": 2000,
                                                                "content": {"reason": "x"}, "redacts": "$ev:s.co", "room_id": "!room:s.co"}});
@@ -336,7 +339,7 @@ pub fn run(_args: &[String]) {
                                     && raw.get_field::<Value>("no_such_field").ok().flatten().is_none();
                                 // the same object with its top-level keys spelled with JSON escapes and an unknown escaped key in front
                                 let escaped_text = match &ev {
-                                    Value::Object(m) => format!("{{\"org.example.caf\\u00e9\":1,{}}}", m.iter().map(|(k, v)| {
+                                    Value::Object(m) => format!("{{\"org.example.caf\\u00e9\":1,\"org.example.nullf\":null,{}}}", m.iter().map(|(k, v)| {
                                         let key = if k == "type" { "\"\\u0074ype\"".to_owned() } else if k == "content" { "\"c\\u006fntent\"".to_owned() } else { serde_json::to_string(k).unwrap() };
                                         format!("{key}:{v}")
                                     }).collect::<Vec<_>>().join(",")),
@@ -347,7 +350,9 @@ pub fn run(_args: &[String]) {
                                         && r.get_field::<String>("type").ok().flatten().as_deref() == Some(ty)
                                         && r.get_field::<Value>("content").ok().flatten().as_ref() == Some(&cont)
                                         && r.get_field::<i64>("org.example.caf\u{e9}").ok().flatten() == Some(1)
-                                        && r.get_field::<Value>("no_such_field").ok().flatten().is_none(),
+                                        && r.get_field::<Value>("no_such_field").ok().flatten().is_none()
+                                        // a field that is null reads as absent, as in a full parse into an Option
+                                        && matches!(r.get_field::<String>("org.example.nullf"), Ok(None)),
                                     Err(_) => false,
                                 };
                                 let raw_field_ok = raw_field_ok && raw_escaped_ok;
